@@ -120,7 +120,6 @@ def has_continuous_leaf(el):
 # ------------------------------------------------------------------------------------ the sweep
 
 TEMPLATES = ["comp", "comp-sq", "comp-times", "comp-dx", "grad-comp", "list", "cond", "variable", "free-index", "restricted", "fpow", "minmax-const"]
-QUICK_TEMPLATES_PLAIN = {"comp", "comp-dx", "restricted"}
 
 
 def _build_sweep():
@@ -140,17 +139,31 @@ def _build_sweep():
                     for pi, part in enumerate(parts):
                         for sc in itertools.product(*[range(n) for n in part.ufl_shape]):
                             full.append((ci, name, kind, (pi,) + tuple(sc), "split"))
-    quick = [s for s in full if s[1] in HETERO or s[4] in QUICK_TEMPLATES_PLAIN]
-    return {"quick": quick, "thorough": full}
+    return {"quick": [s for s in full if _in_quick(s)], "thorough": full}
+
+
+def _in_quick(s):
+    ci, name, kind, comp, t = s
+    if CELLS[ci] == ("interval", 3):
+        return False
+    if name in HETERO:
+        if kind == "Coefficient":
+            return t not in ("minmax-const", "free-index")
+        return t in ("comp", "comp-dx", "comp-times", "split", "restricted")
+    if kind == "Coefficient":
+        return t in ("comp", "comp-dx", "restricted")
+    return t == "comp"
 
 
 SWEEP = _build_sweep()
-NCASES = {"quick": (len(SWEEP["quick"]) * 4) // 3 + 128, "thorough": (len(SWEEP["thorough"]) * 4) // 3 + 30000}
+NCASES = {"quick": (len(SWEEP["quick"]) * 4) // 3 + 64, "thorough": (len(SWEEP["thorough"]) * 4) // 3 + 30000}
+# a full quick run on a quiet machine observes about: events_judged 23000, sweep_cases_judged 3850, random_cases_judged 1520,
+# tight_events 16000, hetero_component_events 11000, cfd_events_judged 5600, attach_events_judged 5900 (floors ~35 %)
 FLOORS = {
-    "quick": {"events_judged": 9000, "sweep_cases_judged": 3500, "random_cases_judged": 250, "tight_events": 2500,
-              "hetero_component_events": 2500, "cfd_events_judged": 500, "attach_events_judged": 2500},
-    "thorough": {"events_judged": 60000, "sweep_cases_judged": 8000, "random_cases_judged": 6000, "tight_events": 15000,
-                 "hetero_component_events": 8000, "cfd_events_judged": 6000, "attach_events_judged": 15000},
+    "quick": {"events_judged": 8000, "sweep_cases_judged": 1350, "random_cases_judged": 520, "tight_events": 5600,
+              "hetero_component_events": 3800, "cfd_events_judged": 1900, "attach_events_judged": 2000},
+    "thorough": {"events_judged": 60000, "sweep_cases_judged": 5500, "random_cases_judged": 5000, "tight_events": 40000,
+                 "hetero_component_events": 12000, "cfd_events_judged": 15000, "attach_events_judged": 15000},
 }
 COVER_FLOORS = {
     t: {
@@ -311,7 +324,7 @@ def judge_direct(ctx, event, expr, true, probes, info):
 EVENT_SHORT = {"raw": "raw", "preprocessed": "preprocessed", "attach_estimated_degrees": "attach", "compute_form_data": "cfd"}
 
 
-def record(ctx, event, expr, d, true, info):
+def record(ctx, event, expr, d, true, info, classes=True):
     ctx.count("events_judged")
     ctx.count(EVENT_SHORT[event] + "_events_judged")
     ctx.covered("events", event)
@@ -322,8 +335,9 @@ def record(ctx, event, expr, d, true, info):
         ctx.count("events_held")
         if d == true:
             ctx.count("tight_events")
-        for c in node_classes(expr):
-            ctx.covered("node_classes_in_held_estimates", c)
+        if classes:
+            for c in node_classes(expr):
+                ctx.covered("node_classes_in_held_estimates", c)
     else:
         ctx.count("events_underestimated")
     if true >= 1:
@@ -350,47 +364,50 @@ def judge_integrals(ctx, U, pieces, probes, info, opts):
         ctx.covered("preprocess_refused_with", type(ex).__name__ + ": " + str(ex)[:50])
         return
     def by_subdomain(integrals):
-        """Forms keep their integrals in canonical order: pair them with the pieces through the (unique) subdomain id."""
+        """Forms keep their integrals in canonical order (and split a measure over several subdomains into one integral
+        per subdomain): pair them with the pieces through the subdomain ids, which are unique per piece."""
         m = {}
         for itg in integrals:
             m.setdefault(itg.subdomain_id(), []).append(itg)
         out = []
         for sid, integrand, true in pieces:
-            got = m.get("everywhere" if sid is None else sid, [])
-            out.append(got[0] if len(got) == 1 else None)
+            keys = ("everywhere",) if sid is None else (sid if isinstance(sid, tuple) else (sid,))
+            got = [m.get(k, []) for k in keys]
+            out.append([g[0] for g in got] if all(len(g) == 1 for g in got) else None)
         return out
 
     pints = by_subdomain(pf.integrals())
     direct = {}
-    for k, (itg, (sid, integrand, true)) in enumerate(zip(pints, pieces)):
-        if itg is None:
-            ctx.count("preprocessed_integral_missing_or_split")
+    for k, (itgs, (sid, integrand, true)) in enumerate(zip(pints, pieces)):
+        if itgs is None:
+            ctx.count("preprocessed_integral_vanished")
             continue
-        direct[k] = judge_direct(ctx, "preprocessed", itg.integrand(), true, probes, info)
+        direct[k] = judge_direct(ctx, "preprocessed", itgs[0].integrand(), true, probes, info)
     try:
         aints = by_subdomain(attach_estimated_degrees(pf).integrals())
     except Exception as ex:
         ctx.count("attach_refused")
         ctx.covered("attach_refused_with", type(ex).__name__ + ": " + str(ex)[:50])
         aints = []
-    for k, (itg, (sid, integrand, true)) in enumerate(zip(aints, pieces)):
-        if itg is None:
+    for k, (itgs, (sid, integrand, true)) in enumerate(zip(aints, pieces)):
+        if itgs is None:
             if pints[k] is not None:
                 ctx.violation("C18/attach_estimated_degrees/integral-lost", f"the integral over subdomain {sid} has no counterpart after attach_estimated_degrees")
             continue
-        d = itg.metadata().get("estimated_polynomial_degree")
-        if not isinstance(d, int) or isinstance(d, bool):
-            ctx.violation("C18/attach_estimated_degrees/no-integer-degree-attached", f"metadata {itg.metadata()!r}")
-            continue
-        record(ctx, "attach_estimated_degrees", itg.integrand(), d, true, info)
-        if d < true and direct.get(k) is not None and direct[k] >= true:
-            ctx.violation(
-                "C18/attach_estimated_degrees/below-true-degree-although-direct-estimate-is-not",
-                f"attached degree {d} < true degree {true}; estimate_total_polynomial_degree of the same integrand gives {direct[k]}",
-                dict(info, integrand=safe_str(itg.integrand(), 900), attached=d, true_degree=true, world=probes[0].describe()),
-            )
-        elif d < true:
-            ctx.count("attach_underestimates_with_the_direct_estimate")
+        for itg in itgs:
+            d = itg.metadata().get("estimated_polynomial_degree")
+            if not isinstance(d, int) or isinstance(d, bool):
+                ctx.violation("C18/attach_estimated_degrees/no-integer-degree-attached", f"metadata {itg.metadata()!r}")
+                continue
+            record(ctx, "attach_estimated_degrees", itg.integrand(), d, true, info)
+            if d < true and direct.get(k) is not None and direct[k] >= true:
+                ctx.violation(
+                    "C18/attach_estimated_degrees/below-true-degree-although-direct-estimate-is-not",
+                    f"attached degree {d} < true degree {true}; estimate_total_polynomial_degree of the same integrand gives {direct[k]}",
+                    dict(info, integrand=safe_str(itg.integrand(), 900), attached=d, true_degree=true, world=probes[0].describe()),
+                )
+            elif d < true:
+                ctx.count("attach_underestimates_with_the_direct_estimate")
     # --- compute_form_data
     if opts is None:
         return
@@ -422,7 +439,7 @@ def judge_integrals(ctx, U, pieces, probes, info, opts):
             if not isinstance(d, int):
                 ctx.count("cfd_estimate_not_an_int")
                 continue
-            record(ctx, "compute_form_data", outs[0].integrand(), d, true, info)
+            record(ctx, "compute_form_data", integrand, d, true, info, classes=False)
             if d < true:
                 if direct.get(k) is not None and direct[k] >= true:
                     ctx.violation(
@@ -620,9 +637,10 @@ def random_case(ctx, i, rng):
     probes = None
     pieces = []
     elems = set()
+    arg_spaces = rng.sample(sorted(chosen), 2)
     for sid in sids:
         try:
-            integrand, args = G.integrand(arity, depth=rng.choice([1, 2, 2, 3]), space_names=rng.sample(sorted(chosen), 2))
+            integrand, args = G.integrand(arity, depth=rng.choice([1, 2, 2, 3]), space_names=arg_spaces)
             integrand = decorate(rng, U, G, integrand)
         except Exception as ex:
             ctx.count("build_refused")
@@ -652,18 +670,19 @@ def random_case(ctx, i, rng):
 
 
 def decorate(rng, U, G, e):
-    """Wrap a generated integrand into the polynomial operators the generator's polynomial profile leaves out."""
+    """Multiply a generated integrand by the polynomial operators the generator's polynomial profile leaves out
+    (as factors, so that the integrand stays linear in its arguments)."""
     r = rng.random()
     c0, c1 = U.const((), 0), U.const((), 1)
     if r < 0.12:
-        other = G.expr((), 1)
+        a, b = G.expr((), 1), G.expr((), 1)
         cond = rng.choice([ufl.lt, ufl.ge, ufl.ne])(c0, c1 * c1)
         if rng.random() < 0.3:
             cond = ufl.And(cond, ufl.Not(ufl.gt(c1, 2 * c0)))
-        return ufl.conditional(cond, e, other) if rng.random() < 0.5 else ufl.conditional(cond, other, e)
+        return e * ufl.conditional(cond, a, b)
     if r < 0.2 and not U.interior:
         v = ufl.variable(G.expr((), 1))
-        return e * v + v * v
+        return e * (v + v * v) if rng.random() < 0.6 else e * ufl.diff(v * v * v + c0 * v, v)
     if r < 0.25:
         return e * ufl.max_value(c0, c1)
     return e
